@@ -95,6 +95,11 @@ PROGRAMS = {
         ["add", "mw", ["cp", 5, S("a1", lo=0), S("d1"), 4.81]],
         ["delay", "mw", 2],
         ["add", "mw", ["pulse", ["ramp", 4, S("a2", lo=0, hi=5), S("a3", lo=5, hi=10)], ["const", 4, S("d2")], 5.18]]]),
+    # two microwave channels, an SLM mask, pulses on the first one only (the second stays empty)
+    "xy_slm_unused": dict(device="mock", prog=[
+        ["declare", "mw", "mw_global"], ["declare", "mw2", "mw_global"], ["config_slm", ["q1"]],
+        ["add", "mw", ["cp", 6, S("a0", lo=0), S("d0"), 0.4]],
+        ["add", "mw", ["cp", 5, S("a1", lo=0), S("d1"), 1.4]]]),
     "eom": dict(device="virt", prog=[
         ["declare", "g", "ryd_glob"], ["declare", "l", "ram_glob"],
         ["add", "l", ["cp", 9, S("a0", lo=0, hi=10), S("d0", lo=-20, hi=20), 5.55]],
@@ -148,14 +153,14 @@ PROGRAMS = {
 }
 
 
-def ref_channel(cs, n):
+def ref_channel(cs, n, slots=None):
     """Reference rendering of one channel from its slot list (length n)."""
     from pulser.pulse import Pulse
 
     amp = [0.0] * n
     det = [0.0] * n
     phase_at = {}
-    for sl in cs.slots:
+    for sl in (cs.slots if slots is None else slots):
         if not isinstance(sl.type, Pulse):
             continue
         a = l2_samples(sl.type.amplitude)
@@ -191,6 +196,12 @@ def h_program(shape):
 
         seq = l2.new_seq(P["device"])
         l2.run_prefix(inp, seq, stretch(P["prog"], shape["stretch"]) if shape.get("stretch") else P["prog"])
+        # the reference is written from a COPY of the slot lists taken before sampling (rendering must not edit the schedule)
+        import types
+
+        frozen = {name: [types.SimpleNamespace(type=sl.type, ti=sl.ti, tf=sl.tf, targets=frozenset(sl.targets)) for sl in cs.slots]
+                  for name, cs in seq._schedule.items()}
+        before = l2.snapshot(seq)
         samples = pulser.sampler.sample(seq)
         obs = []
         refs = {}
@@ -198,14 +209,14 @@ def h_program(shape):
             chs = samples.channel_samples[name]
             n = cs.get_duration()
             obs.append(("channel:length", len(chs.amp) == n and len(chs.det) == n and len(chs.phase) == n))
-            amp, det, phase_at = ref_channel(cs, n)
+            amp, det, phase_at = ref_channel(cs, n, frozen[name])
             refs[name] = (amp, det, phase_at)
             A, D, PH = (list(x.as_array(detach=True).flat) for x in (chs.amp, chs.det, chs.phase))
             obs.append(("channel:amp", AND(*[EQ(A[t], amp[t]) for t in range(n)]) if n else True))
             obs.append(("channel:det", AND(*[EQ(D[t], det[t]) for t in range(n)]) if n else True))
             obs.append(("channel:phase", AND(*[EQ(PH[t], phase_at[t]) for t in phase_at]) if phase_at else True))
             # slots reported by the sampler agree with the pulse slots
-            pulses = [s for s in cs.slots if isinstance(s.type, Pulse)]
+            pulses = [s for s in frozen[name] if isinstance(s.type, Pulse)]
             obs.append(("channel:slots", len(chs.slots) == len(pulses) and all(
                 a.ti == b.ti and a.targets == b.targets and a.tf >= b.tf for a, b in zip(chs.slots, pulses))))
         # ---- extend_duration
@@ -231,13 +242,18 @@ def h_program(shape):
         mask_targets = set(seq._slm_mask_targets) if seq._slm_mask_time else set()
         mask_end = seq._slm_mask_time[1] if seq._slm_mask_time else 0
         for all_local in (False, True):
-            nd = samples.to_nested_dict(all_local=all_local)
+            try:
+                nd = samples.to_nested_dict(all_local=all_local)
+            except Exception:  # noqa: BLE001  (the per-atom view of a valid sequence always exists)
+                obs.append(("nested:completes", False))
+                continue
             bases = {cs.channel_obj.basis for cs in seq._schedule.values()}
             for basis in bases:
                 # reference attribution
                 loc = {q: ([0.0] * T, [0.0] * T) for q in qids}
                 glob = ([0.0] * T, [0.0] * T)
                 unspecified = {}
+                locph = {}  # (atom, t) -> phases of the pulses attributed to the atom at t in the per-atom entries
                 for name, cs in seq._schedule.items():
                     ch = cs.channel_obj
                     if ch.basis != basis:
@@ -246,7 +262,7 @@ def h_program(shape):
                     wmap = cs.detuning_map.get_qubit_weight_map(seq.register.qubits) if is_dmm else None
                     in_xy = basis == "XY"
                     as_global = ch.addressing == "Global" and not all_local and not is_dmm
-                    for sl in cs.slots:
+                    for sl in frozen[name]:
                         if not isinstance(sl.type, Pulse):
                             continue
                         a = l2_samples(sl.type.amplitude)
@@ -262,6 +278,8 @@ def h_program(shape):
                                 w = wmap[q] if is_dmm else 1.0
                                 loc[q][0][t] = loc[q][0][t] + a[k]
                                 loc[q][1][t] = loc[q][1][t] + d[k] * w
+                                if not is_dmm:
+                                    locph.setdefault((q, t), []).append((facade._unwrap0(sl.type.phase), l1.ref_is_detuned_delay(sl.type)))
                     if as_global and cs.in_eom_mode() and cs.get_duration() < T:
                         # "extending only pads ... off-detuning if still in EOM mode": the shorter channel idles at detuning_off
                         for t in range(cs.get_duration(), T):
@@ -280,6 +298,45 @@ def h_program(shape):
                     obs.append((tag + ":atom_amp", AND(*[EQ(e["amp"][t] if e else 0.0, loc[q][0][t]) for t in range(T)])))
                     obs.append((tag + ":atom_det", AND(*[EQ(e["det"][t] if e else 0.0, loc[q][1][t]) for t in range(T)
                                                          if t not in unspecified.get(q, ())])))
+                    # where exactly one pulse drives the atom (per-atom entry), the atom's phase there is that pulse's phase
+                    # (two slots at once on one atom - even when one of them has zero amplitude - add their phases: outside the claim)
+                    single = [(t, ph[0][0]) for (qq, t), ph in locph.items() if qq == q and len(ph) == 1 and not ph[0][1]]
+                    if single and e is not None:
+                        obs.append((tag + ":atom_phase", AND(*[EQ(e["phase"][t], p_) for t, p_ in single])))
+        # ---- sample(seq, extended_duration=D): every channel padded to D (D = the sequence duration included)
+        Tseq = seq.get_duration()
+        for ext in shape["ext"]:
+            try:
+                s2 = pulser.sampler.sample(seq, extended_duration=Tseq + ext)
+            except Exception:  # noqa: BLE001
+                obs.append(("extended:completes", False))
+                continue
+            for name, cs in seq._schedule.items():
+                c2 = s2.channel_samples[name]
+                A2, D2 = (list(x.as_array(detach=True).flat) for x in (c2.amp, c2.det))
+                n = cs.get_duration()
+                amp, det, _ = refs[name]
+                off = float(cs.eom_blocks[-1].detuning_off) if cs.in_eom_mode() else 0.0
+                obs.append(("extended:length", len(A2) == Tseq + ext and len(D2) == Tseq + ext))
+                if len(A2) == Tseq + ext and len(D2) == Tseq + ext:
+                    obs.append(("extended:keeps_samples", AND(*[AND(EQ(A2[t], amp[t]), EQ(D2[t], det[t])) for t in range(n)]) if n else True))
+                    obs.append(("extended:pads", AND(*[AND(EQ(A2[t], 0.0), EQ(D2[t], off)) for t in range(n, Tseq + ext)]) if Tseq + ext > n else True))
+        # a second rendering of the same samples / of the same sequence gives the same views, and none of it touched the sequence
+        again = pulser.sampler.sample(seq)
+        for all_local in (False, True):
+            try:
+                n1, n2 = samples.to_nested_dict(all_local=all_local), again.to_nested_dict(all_local=all_local)
+            except Exception:  # noqa: BLE001
+                obs.append(("nested:completes", False))
+                continue
+            same = []
+            for addr in ("Global", "Local"):
+                same.append(set(n1[addr]) == set(n2[addr]))
+                for basis in set(n1[addr]) & set(n2[addr]):
+                    if addr == "Local":
+                        same.append(set(n1[addr][basis]) == set(n2[addr][basis]) and set(n1[addr][basis]) <= set(qids))
+            obs.append(("nested:repeatable_same_atoms", all(same)))
+        obs.append(("sampling:leaves_sequence_untouched", l2.snap_equal(before, l2.snapshot(seq))))
         return obs
 
     return h
